@@ -238,5 +238,4 @@ def same_value(a, b):
 
 
 def replay(data):
-    print('replay: rerun bin/check C19 quick with VERIF_SEED=%s' % data.get('seed'))
-    return 1
+    return common.replay_by_rerun('C19', data, run)
